@@ -76,6 +76,7 @@ struct Run
    int              rolls_seen = 0;
    int              restarts_seen = 0;
    bool             crash_happened = false;
+   bool             overlong_seen = false;
    bool             gaps_possible = false;   // a roll-over was cut short (crash, failing rename)
    int              torn_fragments = 0;
    uint64_t         sim_seconds = 0;
@@ -621,7 +622,7 @@ struct Run
       // with a single generation every roll-over drops all older messages
       // before the new one is on disk, and a file found full is emptied by
       // the re-open
-      if (max_gen == 1)
+      if (max_gen == 1 || overlong_seen)
          allowLossOfAll();
       checkLimits( f, when);
       checkContent( f, when, true);
@@ -737,7 +738,15 @@ struct Run
          const size_t  len = static_cast< size_t>( std::max< long long>( 1, op.geti( "len", 8)));
          Msg           m;
          m.text = nextMessage( len);
-         if (!counted && m.text.size() + 1 > limit) st.probe( P_oversized_message);
+         if (!counted && m.text.size() + 1 >= limit)
+         {
+            // a message that does not even fit into an empty file: outside the
+            // domain of "no generation exceeds its limit". The library rolls the
+            // (possibly empty) generation 0 for it, which can push acknowledged
+            // messages out before the new one is durable.
+            st.probe( P_oversized_message);
+            overlong_seen = true;
+         }
          msgs.push_back( m);
          Msg&  cur = msgs.back();
          log( when + " '" + cur.text + "'");
